@@ -28,7 +28,8 @@ RUNNER = "C12.Corr.run"
 FINDING_CLASSES = {1: "C12-F1", 2: "C12-F2", 3: "C12-F3", 4: "C12-F4"}
 RULE = ("every class of the live table (core: saml, samlp, md, xmldsig, xmlenc, extension.*, soapenv, ecp, paos, samlec; "
         "extra: ws.*, authn_context.*) x seeded random instances (minimal / random / with foreign elements, foreign "
-        "attributes and hostile characters; depth <= 4) through to_string -> independent reader + *_from_string -> "
+        "attributes and hostile characters / every schema attribute present with the EMPTY string; attribute values, "
+        "extension attribute values and texts are the empty string with probability 0.08; depth <= 4) through to_string -> independent reader + *_from_string -> "
         "to_string -> *_from_string -> to_string; every core class x seeded random documents (known children in "
         "arbitrary order and repeated, unknown children and attributes, look-alike names in other namespaces) rendered "
         "independently of the library; root-mismatch documents; AttributeValue typing table enumerated completely "
@@ -210,10 +211,20 @@ def rand_text(rng, hostile=True, cr=False):
     return s
 
 
+P_EMPTY = 0.08
+
+
+def rand_value(rng, hostile=True):
+    """An attribute value: the empty string with probability P_EMPTY (present-but-empty is not absent)."""
+    return "" if rng.random() < P_EMPTY else rand_text(rng, hostile)
+
+
 def text_classes(s):
     out = set()
     if s is None:
         return out
+    if s == "":
+        out.add("empty")
     if any(c in s for c in "<>&\"'"):
         out.add("markup")
     if any(c in s for c in " \t\n"):
@@ -254,7 +265,7 @@ def rand_attr_dict(rng, rec, n, hostile):
         if q in seen:
             continue
         seen.add(q)
-        out.append([list(q), rand_text(rng, hostile)])
+        out.append([list(q), rand_value(rng, hostile)])
     return out
 
 
@@ -264,6 +275,8 @@ def rand_ee(rng, depth, hostile, rec=None, cr=False):
     if depth > 0 and rng.random() < 0.4:
         kids = [rand_ee(rng, depth - 1, hostile, None, cr) for _ in range(rng.randint(1, 2))]
     text = rand_text(rng, hostile, cr) if rng.random() < 0.6 else None
+    if rng.random() < 0.04:
+        text = ""
     return {"ns": q[0], "tag": q[1], "a": rand_attr_dict(rng, None, rng.choice([0, 0, 1, 2]), hostile), "k": kids, "x": text}
 
 
@@ -272,15 +285,15 @@ def gen_spec(rng, idx, depth, mode, budget):
     """mode: 'min' (required attributes only), 'rand', 'hostile' (foreign content, hostile characters), 'cr'."""
     t = tab()
     rec = t.classes[idx]
-    hostile = mode in ("hostile", "cr")
+    hostile = mode in ("hostile", "cr", "empty")
     spec = {"c": idx, "a": [], "k": [], "e": [], "xa": [], "x": None, "how": rng.choice(["ctor", "setattr"])}
     budget[0] -= 1
     if rec.kind == "attrvalue":
         return gen_av_spec(rng, idx, mode, hostile)
     for _n, member, _t, req in rec.attributes:
-        p = 1.0 if req else (0.0 if mode == "min" else 0.5)
+        p = 1.0 if (req or mode == "empty") else (0.0 if mode == "min" else 0.5)
         if rng.random() < p:
-            spec["a"].append([member, rand_text(rng, hostile)])
+            spec["a"].append([member, "" if mode == "empty" else rand_value(rng, hostile)])
     if depth > 0 and mode != "min":
         for _tag, member, k, lst in rec.children:
             if k is None or budget[0] <= 0 or rng.random() > 0.45:
@@ -295,7 +308,7 @@ def gen_spec(rng, idx, depth, mode, budget):
     simple = rec.value_type is not None or not rec.children
     if rng.random() < (0.7 if simple else 0.15) and mode != "min":
         spec["x"] = rand_text(rng, hostile, cr=(mode == "cr"))
-        if rng.random() < 0.04:
+        if rng.random() < P_EMPTY:
             spec["x"] = ""
     if hostile:
         if rng.random() < 0.5:
@@ -508,7 +521,7 @@ def gen_doc(rng, idx, depth, budget, hostile=True, cr=False):
     attrs = []
     for n, _m, _t, req in rec.attributes:
         if rng.random() < (0.8 if req else 0.45):
-            attrs.append([list(n), rand_text(rng, hostile)])
+            attrs.append([list(n), rand_value(rng, hostile)])
     if rec.kind == "attrvalue":
         return gen_av_doc(rng, idx, node, attrs, hostile)
     if rng.random() < 0.45:
@@ -803,6 +816,12 @@ def generate(ctx):
     for i in extra:
         for mode in (["rand", "hostile"] * 2 if ctx.thorough else [rng.choice(["rand", "hostile"])]):
             cases.append({"kind": "rt", "c": i, "mode": mode, "spec": gen_spec(rng, i, 4, mode, [10])})
+    # every schema attribute present with the EMPTY string (present-but-empty must not become absent)
+    for i, r in enumerate(t.classes):
+        if r.attributes and r.kind == "plain" and (r.core or ctx.thorough or rng.random() < 0.3):
+            cases.append({"kind": "rt", "c": i, "mode": "empty", "spec": gen_spec(rng, i, 1, "empty", [4])})
+            tree = {"g": list(r.tag), "a": [[list(n), ""] for n, _m, _t, _r in r.attributes], "x": "", "k": []}
+            cases.append({"kind": "doc", "c": i, "tree": tree, "rseed": rng.getrandbits(32), "root": "own"})
     # carriage returns in character data (finding class 2)
     for i in rng.sample(core, 200 if ctx.thorough else 12):
         cases.append({"kind": "rt", "c": i, "mode": "cr", "spec": gen_spec(rng, i, 2, "cr", [8])})
